@@ -2519,6 +2519,15 @@ include_dir (BusConfigParser   *parser,
             {
               if (dbus_error_is_set (error))
                 {
+                  /* A broken file is skipped, but running out of memory
+                   * is not the file's fault: do not silently load the
+                   * configuration without it. */
+                  if (dbus_error_has_name (error, DBUS_ERROR_NO_MEMORY))
+                    {
+                      _dbus_string_free (&full_path);
+                      goto failed;
+                    }
+
                   /* We use both syslog and stderr here, because this is
                    * the configuration parser, so we don't yet know whether
                    * this bus is going to want to write to syslog! Err on
